@@ -1,6 +1,8 @@
 package s1028
 
 import (
+	"go/ast"
+
 	"honnef.co/go/tools/analysis/code"
 	"honnef.co/go/tools/analysis/edit"
 	"honnef.co/go/tools/analysis/facts/generated"
@@ -36,6 +38,16 @@ var (
 func run(pass *analysis.Pass) (any, error) {
 	for node, m := range code.Matches(pass, checkErrorsNewSprintfQ) {
 		edits := code.EditMatch(pass, node, m, checkErrorsNewSprintfR)
+		if call, ok := node.(*ast.CallExpr); ok && len(call.Args) == 1 {
+			if inner, ok := call.Args[0].(*ast.CallExpr); ok && inner.Ellipsis.IsValid() {
+				// patterns do not carry the "..." of fmt.Sprintf(format, args...)
+				edits = []analysis.TextEdit{edit.ReplaceWithNode(pass.Fset, node, &ast.CallExpr{
+					Fun:      edit.Selector("fmt", "Errorf"),
+					Args:     inner.Args,
+					Ellipsis: inner.Ellipsis,
+				})}
+			}
+		}
 		// TODO(dh): the suggested fix may leave an unused import behind
 		report.Report(pass, node, "should use fmt.Errorf(...) instead of errors.New(fmt.Sprintf(...))",
 			report.FilterGenerated(),
